@@ -971,6 +971,40 @@ func runC14(c *hc.Ctx) error {
 			}
 		}
 	}
+	// 5. documents of quadtree sets with one REQUIRED member of one tile matrix left out (pointOfOrigin, cellSize, tileWidth,
+	// tileHeight, matrixWidth, matrixHeight): the set has no common origin / no doubling any more.  Such a document does
+	// not load (the decoder rejects it); should it load, validation has to reject it -- never accept, never panic.  Oracle
+	// only: the outcome is a load error or a reject.
+	for bi, b := range bases {
+		if b.doc == nil {
+			continue
+		}
+		tmsArr := b.doc.get("tileMatrices")
+		if tmsArr == nil || tmsArr.Kind != jArr || len(tmsArr.A) == 0 {
+			continue
+		}
+		ids := sortedIDs(&b.set)
+		for mi, member := range []string{"pointOfOrigin", "cellSize", "tileWidth", "tileHeight", "matrixWidth", "matrixHeight"} {
+			if c.Quick() && (bi+mi)%3 != 0 {
+				continue
+			}
+			for _, k := range []int{0, len(tmsArr.A) / 2, len(tmsArr.A) - 1} {
+				doc := b.doc.clone()
+				e := doc.get("tileMatrices").A[k]
+				if e.Kind != jObj || e.get(member) == nil {
+					continue
+				}
+				e.del(member)
+				hr := hookValidateDoc(doc.bytes(), []int{ids[0]}, nil)
+				c.Sum.Evaluations++
+				c.Count("a required member of one tile matrix removed: " + map[string]string{"skip": "the document does not load", "reject": "texel verif-validate reject", "accept": "ACCEPTED", "panic": "PANIC"}[hr.class])
+				if hr.class == "accept" || hr.class == "panic" {
+					vs.add(hc.Violation{What: "a tile matrix set document with a required member of one tile matrix removed (" + member + ") is not rejected: texel verif-validate: " + hr.class,
+						Input: map[string]any{"set": b.name, "tile_matrix_index": k, "member_removed": member, "ids": []int{ids[0]}}, Observed: hr.msg, Expected: "load error or reject"})
+				}
+			}
+		}
+	}
 	buf.flush(c, "Texel.Corr.C14", "theories/Corr/C14.v", 16)
 	return nil
 }
